@@ -1,6 +1,7 @@
 """C18 partial files: crash states materialised from the recorded write log of a real writer run; every read
 method on every state must raise or return exactly what the complete file returns."""
 import hashlib
+import os
 import random
 
 import numpy as np
@@ -29,7 +30,8 @@ def cases(tier, seed):
     rng = random.Random('C18/%s' % seed)
     out = []
     base = [('segy', 'heuristic'), ('segy', 'thorough'), ('segy', 'exhaustive'), ('segy-iops', 'heuristic'), ('numpy', None), ('irregular', 'thorough'),
-            ('2d', 'heuristic'), ('2d', 'thorough'), ('crop', None), ('reblock', None), ('segy-zslice', 'thorough'), ('segy-general', 'heuristic')]
+            ('2d', 'heuristic'), ('2d', 'thorough'), ('crop', None), ('reblock', None), ('segy-zslice', 'thorough'), ('segy-general', 'heuristic'),
+            ('segy-2bit', 'strip')]
     reps = 1 if tier == 'quick' else 5
     for rep in range(reps):
         for kind, det in base:
@@ -50,10 +52,11 @@ def do_write(case, sc, rec):
     rec.only = out
     hdr = {'seed': rng.randrange(1 << 20), 'nfields': rng.randint(2, 4), 'inside': True}
     pre = None
-    if kind in ('segy', 'segy-iops', 'segy-zslice', 'segy-general'):
-        shape = (rng.choice([5, 9]), rng.choice([6, 7]), rng.choice([9, 30]))
+    if kind in ('segy', 'segy-iops', 'segy-zslice', 'segy-general', 'segy-2bit'):
+        shape = (rng.choice([5, 9]), rng.choice([6, 7]), rng.choice([9, 30])) if kind != 'segy-2bit' else (12, 8, 40)
         src = conv.build_source(conv.src_desc(rng, '3d', shape, hdr=hdr, valkind='smooth', fmt=5), sc)
-        rate, bs = {'segy': (4, (4, 4, -1)), 'segy-iops': (8, (4, 4, -1)), 'segy-zslice': (2, (64, 64, 4)), 'segy-general': (8, (8, 8, -1))}[kind]
+        rate, bs = {'segy': (4, (4, 4, -1)), 'segy-iops': (8, (4, 4, -1)), 'segy-zslice': (2, (64, 64, 4)), 'segy-general': (8, (8, 8, -1)),
+                    'segy-2bit': (2, (4, 4, -1))}[kind]
         job = lambda: conv.convert_segy(src['path'], out, rate, bs, reduce_iops=kind == 'segy-iops', detection=det)   # noqa
     elif kind == 'numpy':
         D = gen.cube((6, 9, 20), 3)
@@ -146,6 +149,17 @@ def run_case(case, ctx):
             if truth[repr(op)][0] != 'ok':
                 return {'inconclusive': 'complete file: %s does not return' % (op,)}
     sp = oracles.Spec(full)
+    # a partial file handed to another writer of the package (the re-blocker reads it and writes a new file): what it writes must not read
+    # back as data either
+    adv_truth = None
+    if case['kind'] == 'segy-2bit':
+        from seismic_zfp.conversion import SgzConverter
+        adv = sc.file('adv-full.sgz')
+        with env.quiet():
+            with SgzConverter(full) as c:
+                c.convert_to_adv_sgz(adv)
+        with SgzReader(adv) as r:
+            adv_truth = {repr(op): reads.run_op(r, op) for op in ops}
     # ---- crash states
     states = {}
 
@@ -227,6 +241,36 @@ def run_case(case, ctx):
                     r.close()
                 except Exception:  # noqa
                     pass
+        if adv_truth is not None and counters['crash_states'] % 2 == 0:
+            adv_part = sc.file('adv-part.sgz')
+            if os.path.exists(adv_part):
+                os.remove(adv_part)
+            try:
+                with env.quiet():
+                    with SgzConverter(part) as c:
+                        c.convert_to_adv_sgz(adv_part)
+                counters['reblocks_of_partial_returned'] = counters.get('reblocks_of_partial_returned', 0) + 1
+            except monitors.ContractBreach as e:
+                bad.append({'sig': 'partial:reblock:short-buffer-handed-to-codec', 'detail': '%s: %s' % (label, e)})
+                adv_part = None
+            except Exception:  # noqa
+                counters['reblocks_of_partial_refused'] = counters.get('reblocks_of_partial_refused', 0) + 1
+                adv_part = None
+            if adv_part is not None:
+                try:
+                    with SgzReader(adv_part) as r2:
+                        for op in ops:
+                            got = reads.run_op(r2, op)
+                            counters['reads'] += 1
+                            if got[0] != 'exc' and got != adv_truth[repr(op)]:
+                                bad.append({'sig': 'partial:reblock:%s:returns-data-differing-from-complete-file' % op[0],
+                                            'detail': 're-blocking crash state %s (%d bytes of %d) returned normally; %s%s of its output differs from the re-blocked complete file'
+                                                      % (label, len(content), L, op[0], op[1:])})
+                                break
+                except monitors.ContractBreach as e:
+                    bad.append({'sig': 'partial:reblock:short-buffer-handed-to-codec', 'detail': '%s: %s' % (label, e)})
+                except Exception:  # noqa
+                    pass
         if len(bad) > 20:
             break
     counters['contract_evaluations'] = ctx['zfpy_proxy'].n_decompress
@@ -248,7 +292,7 @@ def sample_view(case, res):
 
 def finalize(tier, cases, results, counters, strata):
     reasons = []
-    need = ['writer:segy', 'writer:numpy', 'writer:irregular', 'writer:2d', 'writer:crop', 'writer:reblock', 'detection:thorough', 'detection:heuristic',
+    need = ['writer:segy', 'writer:numpy', 'writer:irregular', 'writer:2d', 'writer:crop', 'writer:reblock', 'writer:segy-2bit', 'detection:thorough', 'detection:heuristic',
             'states:raw-prefix', 'states:py-prefix', 'states:truncate']
     for s in need:
         if s not in strata:
